@@ -21,6 +21,7 @@ const (
 	// 为了兼容阿里云的 redis，我们无法使用 `local key = KEYS[1]` 来重用 key
 	// KEYS[1] as tokens_key
 	// KEYS[2] as timestamp_key
+	// 时间戳只进不退：存 max(now, last_refreshed)，较早的 now 不会回拨它，同一时段不会被重复补充
 	script = `local rate = tonumber(ARGV[1])
 local capacity = tonumber(ARGV[2])
 local now = tonumber(ARGV[3])
@@ -46,7 +47,7 @@ if allowed then
 end
 
 redis.call("setex", KEYS[1], ttl, new_tokens)
-redis.call("setex", KEYS[2], ttl, now)
+redis.call("setex", KEYS[2], ttl, math.max(now, last_refreshed))
 
 return allowed`
 
